@@ -165,8 +165,14 @@ func execEdit(c core.Case) []core.Rec {
 			break
 		}
 		var srcNode node.Node
-		if op.K != "delete" {
+		if op.K == "replace" {
+			// ReplaceFrom deletes the selection and inserts the source into its PARENT
+			// selection: the source is rooted one level up ({"c":{...}} / {"l":[{...}]})
+			srcNode, err = SourceNode(f, op.Src, gen.WithAncestors(f.DS, op.S, op.At), op.At[:len(op.At)-1])
+		} else if op.K != "delete" {
 			srcNode, err = SourceNode(f, op.Src, op.S, op.At)
+		}
+		if op.K != "delete" {
 			if err != nil {
 				rec["chk"] = "harness"
 				res["err"] = "harness-source: " + err.Error()
@@ -201,8 +207,12 @@ func execEdit(c core.Case) []core.Rec {
 			res["ok"] = true
 		}
 		rec["res"] = res
-		rec["post"] = kind.Project(f, root)
+		post := kind.Project(f, root)
+		rec["post"] = post
 		recs = append(recs, rec)
+		if c["verifyfind"] == true {
+			recs = append(recs, findAll(f, kind, storeName, root, post, op, i))
+		}
 	}
 	return recs
 }
@@ -225,4 +235,46 @@ func SrcOrdered(src string) bool {
 		return k.Ordered
 	}
 	return false
+}
+
+// findAll navigates, after an operation, to every container / list / entry the
+// store now holds and to the node a delete addressed, and records what Find said.
+func findAll(f *fx.Fixture, kind *fx.StoreKind, storeName string, root any, post *abs.Tree, op Op, step int) core.Rec {
+	b := node.NewBrowser(f.Module, kind.Wrap(root))
+	type fr struct {
+		P     abs.Path `json:"p"`
+		Found bool     `json:"found"`
+		Err   string   `json:"err"`
+		Key   []string `json:"key"`
+	}
+	probe := func(p abs.Path) fr {
+		out := fr{P: p, Key: []string{}}
+		var sel *node.Selection
+		err, panicked, _ := Guard(func() error {
+			var e error
+			sel, e = b.Root().Find(fx.URLPath(p))
+			return e
+		})
+		if panicked {
+			out.Err = "panic"
+		} else if err != nil {
+			out.Err = ErrClass(err)
+		} else if sel != nil {
+			out.Found = true
+			for _, k := range sel.Key() {
+				out.Key = append(out.Key, k.String())
+			}
+		}
+		return out
+	}
+	results := []fr{}
+	for _, p := range post.Cont {
+		results = append(results, probe(p))
+	}
+	gone := []fr{}
+	if op.K == "delete" && len(op.At) > 0 {
+		gone = append(gone, probe(op.At))
+	}
+	return core.Rec{"chk": "findall", "schema": f.Name, "impl": storeName, "tree": post, "present": results, "gone": gone,
+		"step": fmt.Sprintf("%d-find", step), "sig": core.Rec{"impl": storeName, "k": op.K, "at": atKind(f, op.At)}}
 }
